@@ -73,6 +73,47 @@ CHECKS = {
              ">= retry period with doubling/cap/reset, bounded progress, no calls without a reference, readResponse only when ready).",
         note="Bounded depth for the exhaustive part; LP64 host: loop()'s unsigned long arithmetic does not wrap at 2^32 here.",
         design="2/C14", category="exploration"),
+    "C05": dict(
+        technique="strided / boundary-targeted generation of instants, round-trip and metamorphic (conversion-invariance) oracles",
+        text="33 manual (std,dst) offset pairs x epoch seconds at stride 4099 (thorough: stride 1 for 8 pairs over the whole valid "
+             "int32 range, stride 7 for the rest) plus every UTC and local day boundary +-3 s; every zone of both registries (direct "
+             "and manager-created) x every transition +-2 s, surrounding midnights, year ends and a 7919 s grid. Identities checked: "
+             "round trip, Unix variants (+946684800), convertToTimeZone / convertToTimeOffset keep the instant, compareTo orders by "
+             "instant across zones and inside one zone across fall-back transitions. ~4.7e9 relation instances per quick run.",
+        note="Valid domain: one day plus the largest offset away from the int32 limits (README); Unix variants where representable. "
+             "Sampled, not exhaustive, in the quick tier.",
+        design="2/C05"),
+    "C15": dict(
+        technique="exhaustive + Hypothesis-generated values vs format-string reference model, print/parse round trip",
+        text="All 93,136 dates x 4 times and Hypothesis-drawn date-times, every offset -5999..5999 minutes, seed-drawn offset date-times "
+             "x ~60 offsets incl. -00:59..-00:01, every zone of both registries x 20 instants (direct and managed) and manual zones: "
+             "printed text must equal the reference format exactly and parse back to an equal value (const char* and F() parsers); "
+             "error placeholders; every proper prefix of a valid text per parser must give an error value.",
+        note="Trusts the shim's Print/printPad2To. Malformed text of full length is documented as unspecified (memory safety: C09).",
+        design="2/C15"),
+    "C16": dict(
+        technique="enumeration over all zones/kinds + Hypothesis-drawn equality pools vs value model, save/restore round trip, fresh-instance differential",
+        text="Every zone of both registries as direct and manager-created (name/id/index/info) values: toTimeZoneData -> "
+             "createForTimeZoneData through the full manager, the other database's manager and subset registries with/without the "
+             "zone; equality with createForZoneId, identical answers to a fresh zone; manual grid 129 x 13 + extremes; error zones; all "
+             "256 serialised type bytes; operator==/!= on Hypothesis-drawn pools of 30..60 values of all kinds vs the value model. "
+             "ASan+UBSan build.",
+        note="Manual sums outside int16 are not generated.",
+        design="2/C16"),
+    "C17": dict(
+        technique="exhaustive enumeration vs integer-arithmetic reference model",
+        text="All 1,843,199 period second counts (round trip, ranges, negate), ~2,050^2 compareTo/==/!= pairs, all int8 (hour,minute) "
+             "pairs, all int16 minute values, increment15Minutes on -1000..1000 and its 129-step cycle, every start value 0..255 of "
+             "every increment helper and every limit 1..255. Complete over the stated finite domains.",
+        note="Trusts the shim's incrementMod/incrementModOffset (AceCommon semantics).",
+        design="2/C17"),
+    "C18": dict(
+        technique="exhaustive enumeration, three-way differential (C++ / Python / calendar-by-enumeration oracle), sanitizer run on admitted cases",
+        text="Years 1873..2126 x months x weekdays 0..7 x day-of-month -31..31 (1.3e6 cases): the admitted set is computed by running the "
+             "real transformer step; on admitted cases C++ == Python == calendar and the answer stays within the year; zone UNTIL-day "
+             "path; admitted cases re-run under ASan+UBSan; ON-string grammar and Hypothesis near-misses through the parser.",
+        note="Trusts datetime.date. UNTIL-day path and sanitizer run cover 28+ years in the quick tier, all years in thorough.",
+        design="2/C18"),
     "C06": dict(
         technique="exhaustive enumeration + strided generation vs calendar oracle (datetime / days-from-civil differential)",
         text="Exhaustive enumeration of all 93,136 dates (plus all out-of-range component tuples in a surrounding "
